@@ -61,8 +61,11 @@ type Label struct {
 	Pay     string // none junk reject doc
 	Doc     string // query mutation sub subfail invalid   (Pay == "doc")
 	Variant int    // wire spelling
-	// lEmit / lSrcEnd
+	// lEmit / lSrcEnd: Src is the creation index of the source the script means; Op is filled in
+	// when the label is performed: the operation number of that source (what the model's label
+	// names), or the label's own index when there is no such source
 	Src int
+	Op  int
 	// lEnd
 	End string // client-close drop app-close peer
 }
@@ -78,9 +81,9 @@ func (l Label) sexp() sexp.Node {
 	case lMalformed:
 		return sexp.T("malformed")
 	case lEmit:
-		return sexp.T("emit", sexp.Int(l.Src))
+		return sexp.T("emit", sexp.Int(l.Op))
 	case lSrcEnd:
-		return sexp.T("srcend", sexp.Int(l.Src))
+		return sexp.T("srcend", sexp.Int(l.Op))
 	case lEnd:
 		return sexp.T("end", sexp.Sym(l.End))
 	}
